@@ -223,6 +223,65 @@ def job_gen_run(args):
     return r
 
 
+def job_observer_completion(args):
+    """C08, directed: the execution engine learns about a started service from the LOG entry delivered to an attached
+    observer and reports it finished from inside update(): the service has been announced, so the report is accepted
+    exactly once (a repeat is refused), and the order runs to its end"""
+    import re as _re
+
+    import impl
+    from pfdl_scheduler.scheduler import Event
+
+    seed, = args
+    rng = random.Random(seed)
+    signal.signal(signal.SIGALRM, _alarm)
+    signal.alarm(60)
+    try:
+        prog = progs.gen_program(rng, depth=2, ploops=False)
+        text = progs.print_program(prog, indent=4)
+        answers = sc.Answers(random.Random(seed + 1))
+        run = impl.Run(text, ids=rng.choice(["test", "uuid"]), answers=answers)
+        if run.s is None or not run.valid:
+            return {"seed": seed, "skip": True}
+        problems = []
+        pat = _re.compile(r"^Service (\S+) with UUID '([^']*)' started\.$")
+        state = {"n": 0}
+
+        def hook(obs, ntype, data):
+            if obs.idx != 0 or str(ntype).endswith("PETRI_NET") or not isinstance(data, tuple):
+                return
+            m = pat.match(data[0])
+            if not m:
+                return
+            state["n"] += 1
+            if state["n"] > 60:
+                return  # endless loops: stop reporting, the run is cut
+            uid = m.group(2)
+            r1 = run.s.fire_event(Event("service_finished", {"service_uuid": uid}))
+            if r1 is not True:
+                problems.append("completion of service %s (%s) reported from inside the observer's update() for its 'started' log entry returned %r" % (m.group(1), uid, r1))
+            elif rng.random() < 0.3:
+                r2 = run.s.fire_event(Event("service_finished", {"service_uuid": uid}))
+                if r2 is not False:
+                    problems.append("the repeated completion of service %s returned %r" % (m.group(1), r2))
+
+        run.update_hook = hook
+        for k in ("ts", "ss", "sf", "tf"):
+            run.register(k, 0)
+        run.attach(0)
+        c = run.start()
+        if c.get("exc") and c["exc"] != "RecursionError":
+            problems.append("start() raised %s" % c["exc"])
+        elif not c.get("exc") and state["n"] <= 60:
+            if c.get("running") or c.get("awaited"):
+                problems.append("every service was reported finished when its start was logged, but the order did not finish: running=%r awaited=%r" % (c.get("running"), c.get("awaited")))
+        return {"seed": seed, "text": text, "problems": problems, "services": state["n"]}
+    except CaseTimeout:
+        return {"seed": seed, "skip": True}
+    finally:
+        signal.alarm(0)
+
+
 def job_variants(case):
     """C18: the same explicit case under configuration variants; returns list of (name, canonical renamed trace)"""
     import impl  # noqa: F401
@@ -311,7 +370,7 @@ def run_with_others(case, ids="uuid"):
                 uid = rng.choice(main.announced)
                 if o.s.fire_event(Event("service_finished", {"service_uuid": uid})):
                     cross_accepted.append(uid)
-        if "n" in op and op["n"] >= len(main.announced):
+        if op["op"] in ("finish", "junk") and "n" in op and op["n"] >= len(main.announced):
             rec = {"op": op, "out": [], "ret": None, "exc": "ReplayDiverged", "stdout": ""}
             rec.update(main.snapshot())
             main.calls.append(rec)
@@ -540,7 +599,7 @@ def _run(ctx, cfg, n_cases, pool, res):
     disagreements = []
     model_errors = 0
     if ctx["model_ok"]:
-        modelled = [r for r in valid if not r["case"].get("imm_other")]
+        modelled = [r for r in valid if not r["case"].get("imm_other") and not r["case"].get("imm_sf")]
         resps = run_model([sc.model_request(r["case"]) for r in modelled])
         for r, resp in zip(modelled, resps):
             d = compare(r, resp, proj)
@@ -592,6 +651,20 @@ def _run(ctx, cfg, n_cases, pool, res):
                 if v["rule"] not in seen_rules:
                     seen_rules.add(v["rule"])
                     res["violations"].append({"rule": v["rule"], "msg": v["msg"], "replay_obj": _replay_obj(prop, r, v, {"variants": True})})
+    # C08: completion reported from inside an observer's update() ---------------------------------------
+    if prop == "C08":
+        nobs = 0
+        for r in pool.map(job_observer_completion, [(seed * 7 + i,) for i in range(60 if tier == "quick" else 600)], chunksize=2):
+            if r.get("skip"):
+                continue
+            nobs += 1
+            if r["problems"] and "observer_completion" not in seen_rules:
+                seen_rules.add("observer_completion")
+                res["violations"].append({"rule": "observer_completion", "msg": r["problems"][0],
+                                          "replay_obj": {"property": prop, "family": "sched", "rule": "observer_completion", "message": r["problems"][0],
+                                                         "text": r["text"], "job_seed": r["seed"],
+                                                         "how": "re-run: tools/sched_family.job_observer_completion((job_seed,))"}})
+        res["notes"].append("completions from inside observer.update(): %d runs" % nobs)
     # C08: the run without the rejected calls must be the same run -----------------------------------
     if prop == "C08":
         def redundant(r):
